@@ -22,6 +22,7 @@ type Log struct{ Idx, Addr, Body uint64 }
 type Tx struct {
 	Idx, Hash uint64
 	Logs      []Log
+	Traces    []uint64 // body ids of the transaction's trace actions, in order
 }
 type Block struct {
 	Hash, Time uint64
@@ -160,6 +161,26 @@ func (c Chain) receiptsJSON(n uint64) []any {
 	return res
 }
 
+// trace_block(n): every trace of the block, transaction by transaction
+func (c Chain) tracesJSON(n uint64) []any {
+	res := []any{}
+	for _, t := range c[n].Txs {
+		for _, body := range t.Traces {
+			res = append(res, map[string]any{
+				"blockHash":           hx(Hash32(c[n].Hash)),
+				"blockNumber":         n,
+				"transactionHash":     hx(Hash32(t.Hash)),
+				"transactionPosition": t.Idx,
+				"action": map[string]any{
+					"from": hx(Addr20(body)), "to": hx(Addr20(body + 1)),
+					"callType": "call", "value": qn(body),
+				},
+			})
+		}
+	}
+	return res
+}
+
 func (c Chain) logsJSON(from, to uint64, addrs []string) []any {
 	res := []any{}
 	for n := from; n <= to && n < uint64(len(c)); n++ {
@@ -224,6 +245,7 @@ const (
 	ClsExtra  = "extra"  // eth_getLogs pair or eth_getBlockReceipts batch
 	ClsLatest = "latest" // direct eth_getBlockByNumber("latest") of Client.Latest
 	ClsPoll   = "poll"   // the same from httpPoll (id "1")
+	ClsTrace  = "trace"  // trace_block(n), one request per block
 )
 
 // PollAnswer is what a released poll request is answered with.
@@ -242,6 +264,7 @@ type Server struct {
 	faultKind int
 	// per-key budget of base requests to fail (concurrent runs)
 	failKeys map[[2]uint64]int
+	failTrce map[uint64]int // block number -> trace_block requests to fail
 	counts   map[string]int
 	head     *Head // answer to a direct "latest" (nil = fail)
 
@@ -254,7 +277,7 @@ type Server struct {
 }
 
 func NewServer(c Chain) *Server {
-	s := &Server{Chain: c, counts: map[string]int{}, failKeys: map[[2]uint64]int{}}
+	s := &Server{Chain: c, counts: map[string]int{}, failKeys: map[[2]uint64]int{}, failTrce: map[uint64]int{}}
 	s.HS = httptest.NewServer(http.HandlerFunc(s.handle))
 	return s
 }
@@ -272,6 +295,13 @@ func (s *Server) SetFaults(base, extra bool, kind int) {
 func (s *Server) FailKey(start, limit uint64, n int) {
 	s.mu.Lock()
 	s.failKeys[[2]uint64{start, limit}] = n
+	s.mu.Unlock()
+}
+
+// FailTrace makes the next k trace_block requests for block n fail (0 clears).
+func (s *Server) FailTrace(n uint64, k int) {
+	s.mu.Lock()
+	s.failTrce[n] = k
 	s.mu.Unlock()
 }
 
@@ -353,6 +383,8 @@ func (s *Server) handle(w http.ResponseWriter, r *http.Request) {
 	// classify
 	cls := ClsBase
 	switch {
+	case !batch && reqs[0].Method == "trace_block":
+		cls = ClsTrace
 	case !batch:
 		cls = ClsLatest
 		if reqs[0].ID == "1" {
@@ -392,6 +424,12 @@ func (s *Server) handle(w http.ResponseWriter, r *http.Request) {
 		h := *s.head
 		head = &h
 	}
+	if cls == ClsTrace {
+		if n, ok := parseQ(reqs[0].Params[0]); ok && s.failTrce[n] > 0 {
+			s.failTrce[n]--
+			fail = true
+		}
+	}
 	if cls == ClsBase {
 		if first, ok := parseQ(reqs[0].Params[0]); ok {
 			k := [2]uint64{first, uint64(len(reqs))}
@@ -419,6 +457,14 @@ func (s *Server) handle(w http.ResponseWriter, r *http.Request) {
 	}
 
 	switch cls {
+	case ClsTrace:
+		n, ok := parseQ(reqs[0].Params[0])
+		var result any
+		if ok && n < uint64(len(s.Chain)) {
+			result = s.Chain.tracesJSON(n)
+		}
+		w.Header().Set("content-type", "application/json")
+		json.NewEncoder(w).Encode(map[string]any{"jsonrpc": "2.0", "id": ids[0], "result": result})
 	case ClsLatest, ClsPoll:
 		if head == nil {
 			s.fault(w, kind, ids, false)
